@@ -234,6 +234,12 @@ static void build_catalogue()
 	A("Inverse after Resize(5x5 -> 3x3)", [] { Matrix M = mat(5, 5); for(int i = 0; i < 5; i++) M[i][i] += 9.0; M.Resize(3, 3); return msum(M.Inverse()); });
 	A("Vector ops after Resize(3 -> 5)", [] { Vector v(3, 1.0); v.Resize(5); v[4] = 2.0; Vector w(5, 1.0); return (v + w)[4] + v.Dot(w); });
 	R("Vector + old size after Resize(3 -> 5)", [] { Vector v(3, 1.0); v.Resize(5); Vector w(3, 1.0); return (v + w)[0]; });
+	// an object that was the source of std::move is still a Vector / Matrix the caller may use: the classes copy, so it keeps its contents - and whatever a
+	// class does with moves, the guards must go on agreeing with the storage (seeded change C10-r7m1: a move constructor that left the size behind)
+	A("Vector used after being the source of a move construction", [] { Vector a(4, 1.0); Vector b(std::move(a)); Vector c(a.Size(), 2.0); double r = b[3]; if(a.Size() > 0) r += a[a.Size() - 1] + a.Dot(c) + (a + c)[a.Size() - 1]; a += c; return r; });
+	A("Vector used after being the source of a move assignment", [] { Vector a(5, 1.0), b; b = std::move(a); Vector c(a.Size(), 2.0); double r = b[4]; if(a.Size() > 0) r += a[a.Size() - 1] + a.Dot(c) + (a - c).Norm(); return r; });
+	A("Matrix used after being the source of a move construction", [] { Matrix a = mat(3, 3); Matrix b(std::move(a)); double r = msum(b); if(a.Rows() > 0 && a.Columns() > 0) r += a[a.Rows() - 1][a.Columns() - 1] + msum(a.Transpose()) + a.Trace(); return r; });
+	A("Matrix used after being the source of a move assignment", [] { Matrix a = mat(2, 3), b; b = std::move(a); double r = msum(b); if(a.Rows() > 0 && a.Columns() > 0) r += a[a.Rows() - 1][a.Columns() - 1] + msum(a.Transpose()); return r; });
 	A("Vector assignment of another size", [] { Vector v; v = Vector(5, 1.0); Vector w(5, 2.0); return (v + w)[4] + (double) v.Size(); });
 	R("Vector index size after assignment of a smaller vector", [] { Vector v(5, 1.0); v = Vector(2, 1.0); return v[2]; });
 	A("Matrix ctor regular rows", [] { return msum(Matrix(std::vector<std::vector<double>> {{1, 2, 3}, {4, 5, 6}})); });
@@ -367,6 +373,12 @@ static void build_catalogue()
 	A("Find_Root zero at left end", [] { return Find_Root([](double x) { return x - 1; }, 1, 2, 1e-8); });
 	A("Find_Root zero at right end", [] { return Find_Root([](double x) { return x - 2; }, 1, 2, 1e-8); });
 	R("Find_Root no sign change (both positive)", [] { return Find_Root([](double x) { return x * x + 1; }, 0, 2, 1e-8); });
+	// brackets that are not wider than the requested accuracy are still checked (seeded change C10-r7m2 returned their midpoint before looking at the function)
+	R("Find_Root no sign change on a bracket narrower than the accuracy", [] { return Find_Root([](double x) { return x * x + 1; }, 2.0, 2.0 + 1e-9, 1e-6); });
+	R("Find_Root no sign change on a tiny bracket near zero", [] { return Find_Root([](double x) { return x - 5; }, 1e-12, 3e-12, 1e-10); });
+	R("Find_Root equal ends without a zero", [] { return Find_Root([](double x) { return x * x + 1; }, 2.0, 2.0, 1e-6); });
+	R("Find_Root NaN ends on a bracket narrower than the accuracy", [] { return Find_Root([](double x) { return std::log(x); }, -1.0, -1.0 + 1e-9, 1e-6); });
+	A("Find_Root sign change on a bracket narrower than the accuracy", [] { return Find_Root([](double x) { return x - 2.0000000005; }, 2.0, 2.0 + 1e-9, 1e-6); });
 	R("Find_Root no sign change (both negative)", [] { return Find_Root([](double x) { return -x * x - 1; }, 0, 2, 1e-8); });
 	R("Find_Root NaN at left end", [] { return Find_Root([](double x) { return std::log(x); }, -1, 2, 1e-8); });
 	R("Find_Root NaN at right end", [] { return Find_Root([](double x) { return std::sqrt(1 - x) - 0.5; }, 0, 2, 1e-8); });
@@ -662,6 +674,31 @@ static void build_catalogue()
 			for(unsigned i2 : {0u, (unsigned) (n - 1), (unsigned) n, (unsigned) (n + 5), UMAX})
 				A("Sub_List n=" + std::to_string(n) + " i1=" + std::to_string(i1) + " i2=" + std::to_string(i2), [=] { return (double) Sub_List(xs(n), i1, i2).size(); });
 	A("Sub_List empty list", [] { return (double) Sub_List(std::vector<double> {}, 0, 0).size(); });
+	// the 1% edge tolerance on a table far from the origin (1.5*2^30, not next to a power of two) whose edge intervals are 256 ulp of the knots: the tolerance is 2.56 ulp, so arguments one and
+	// two ulp outside are accepted, three and four are not - an argument test rewritten with thresholds that carry an ulp of cancellation error moves
+	// that (seeded change C10-r7m3); and a table that ends next to the largest double, where such thresholds overflow
+	for(int u = 1; u <= 4; u++)
+		for(int side = 0; side < 2; side++)
+		{
+			std::string nm = std::string("Interpolation ") + std::to_string(u) + " ulp " + (side ? "above" : "below") + " a table at 1.5*2^30 with 256-ulp edge intervals";
+			auto fn = [u, side] {
+				double x0 = 0x1.8p30, h = 0x1p-14;
+				Interpolation I(std::vector<double> {x0, x0 + h, x0 + 2 * h, x0 + 3 * h}, std::vector<double> {1.0, 2.0, 4.0, 3.0});
+				double x = side ? x0 + 3 * h : x0;
+				for(int i = 0; i < u; i++)
+					x = std::nextafter(x, side ? INFINITY : -INFINITY);
+				return I(x);
+			};
+			(u <= 2 ? A : R)(nm, fn);
+		}
+	R("Interpolation at the largest double, 80 edge intervals above a table that ends at 1.79e308", [] {
+		Interpolation I(std::vector<double> {1.70e308, 1.75e308, 1.79e308, 1.7901e308}, std::vector<double> {1.0, 2.0, 4.0, 3.0});
+		return I(1.7976931348623157e308);
+	});
+	A("Interpolation inside a table that ends at 1.79e308", [] {
+		Interpolation I(std::vector<double> {1.70e308, 1.75e308, 1.79e308, 1.7901e308}, std::vector<double> {1.0, 2.0, 4.0, 3.0});
+		return I(1.76e308);
+	});
 	A("Locate_Closest_Location sorted", [] { return (double) Locate_Closest_Location({1, 2, 2, 5}, 3.4); });
 	R("Locate_Closest_Location unsorted", [] { return (double) Locate_Closest_Location({1, 3, 2, 5}, 3.4); });
 	R("Locate_Closest_Location descending", [] { return (double) Locate_Closest_Location({5, 3, 1}, 3.4); });
